@@ -341,6 +341,7 @@ type outEdge struct {
 }
 
 type blockState struct {
+	curCall *ssa.CallCommon // the call being executed by a native model (for models that inspect the SSA arguments)
 	pendingBindings []Val
 	fr    *Frame
 	st    *St
